@@ -48,6 +48,11 @@ type Call struct {
 	// Force=parked (control) - the reply is released ParkMs after the call started.
 	Force  string `json:"force,omitempty"`
 	ParkMs int    `json:"park_ms,omitempty"`
+	// TimeoutMs (plan now): per-operation timeout of this call instead of the 5 s (a set-up call that
+	// gets its reply at once; what matters is the call after the quiet period).
+	// PauseBeforeMs: the session is left alone this long before the call is started.
+	TimeoutMs     int `json:"timeout_ms,omitempty"`
+	PauseBeforeMs int `json:"pause_before_ms,omitempty"`
 	// OneLine: the whole reply is ONE line (no newline anywhere in the payload), 1-5 kB long.
 	// NoNL (1.0): no newline behind the ]]>]]> delimiter either (default: "]]>]]>\n", Junos style).
 	OneLine bool `json:"one_line,omitempty"`
@@ -303,6 +308,8 @@ func GenSession(r *rand.Rand, idx int) Session {
 	switch {
 	case idx%5 == 2: // a fixed share of sessions with replies that straddle the caller's deadline
 		s.Profile = "straddle"
+	case idx%11 == 6: // quiet periods longer than the previous call's timeout
+		s.Profile = "idle"
 	case idx%15 == 11: // forced schedules at the library's yield points (run solo)
 		s.Profile = "forced"
 	case idx%9 == 4: // replies of 150-300 KiB followed back-to-back by another server message
@@ -354,6 +361,10 @@ func GenSession(r *rand.Rand, idx int) Session {
 	case "forced":
 		n = 4 + r.Intn(5)
 		s.Seg = segs[r.Intn(len(segs))]
+	case "idle":
+		n = 5 + r.Intn(4)
+		// set-up calls must finish well inside 250-400 ms: large reads only
+		s.Seg = []devsim.Seg{{Mode: "whole"}, {Mode: "fixed", Size: 4096}, {Mode: "mix", Size: 100}, {Mode: "fixed", Size: 700}}[r.Intn(4)]
 	default:
 		s.Seg = segs[r.Intn(len(segs))]
 	}
@@ -365,7 +376,7 @@ func GenSession(r *rand.Rand, idx int) Session {
 	}
 	if s.Echo && (idx/4)%2 == 0 { // a fixed half of the echoing sessions
 		s.NoEchoMark = true
-		if s.Profile != "long" && s.Profile != "big" && s.ReadDelayMs == 0 && r.Intn(4) != 0 {
+		if s.Profile != "long" && s.Profile != "big" && s.Profile != "idle" && s.ReadDelayMs == 0 && r.Intn(4) != 0 {
 			// large reads, so that echo tail and reply really share a read
 			s.Seg.Mode, s.Seg.Size = []string{"whole", "fixed", "mix", "mix"}[r.Intn(4)], []int{4096, 4096, 100, 4096}[r.Intn(4)]
 		}
@@ -383,7 +394,7 @@ func GenSession(r *rand.Rand, idx int) Session {
 	}
 	if idx%3 == 1 { // a fixed third of the sessions runs behind a tty line discipline
 		s.TTY = []string{"every", "framing", "random", "none", "every", "framing"}[(idx/3)%6]
-		if (s.Profile == "big" || s.ReadDelayMs > 0) && s.TTY != "none" {
+		if (s.Profile == "big" || s.Profile == "idle" || s.ReadDelayMs > 0) && s.TTY != "none" {
 			// thousands of pairs in 300 KiB of data / every extra read costs a raised read delay: cut
 			// only the framing pairs
 			s.TTY = "framing"
@@ -397,7 +408,7 @@ func GenSession(r *rand.Rand, idx int) Session {
 		maxFill = 120
 	case s.Profile == "long":
 		maxFill = 200
-	case s.Profile == "straddle", s.Profile == "big", s.Profile == "race", s.Profile == "forced":
+	case s.Profile == "straddle", s.Profile == "big", s.Profile == "race", s.Profile == "forced", s.Profile == "idle":
 		maxFill = 300
 	}
 	releases := []string{"before-next", "before-next", "with-next-before", "next-write-1", "next-write-2", "after-next", "after-2", "at-end"}
@@ -443,6 +454,23 @@ func GenSession(r *rand.Rand, idx int) Session {
 				c.Plan = "now"
 			default:
 				c.Plan = "never"
+			}
+		case "idle":
+			c.Plan = "now"
+			if k > 0 && s.Calls[k-1].Plan == "now" && s.Calls[k-1].TimeoutMs > 0 {
+				// the previous call got its reply within its short timeout: stay quiet for longer than
+				// that timeout, then call again (mostly a call that is answered at once)
+				c.PauseBeforeMs = s.Calls[k-1].TimeoutMs + 150 + r.Intn(150)
+				if q < 12 {
+					c.Plan = "late"
+				} else if q < 20 {
+					c.Plan = "never"
+				}
+				if q >= 60 {
+					c.TimeoutMs = 250 + r.Intn(150) // ... and a chain: this one is a set-up call again
+				}
+			} else if k < n-1 {
+				c.TimeoutMs = 250 + r.Intn(150)
 			}
 		case "forced":
 			switch {
@@ -498,7 +526,7 @@ func GenSession(r *rand.Rand, idx int) Session {
 		// reply, and the end of the delimiter never shares a read with what follows it there)
 		oneLine := !huge && (idx*3+k)%7 == 2 && !(s.Seg.Mode == "fixed" && s.Seg.Size == 1)
 		big := (maxFill == 600 && r.Intn(14) == 0) || huge || oneLine
-		if s.HoldHelloTail > 0 && reqs == 0 && c.Plan != "local" && !(s.Seg.Mode == "fixed" && s.Seg.Size < 17) && r.Intn(4) != 0 {
+		if s.HoldHelloTail > 0 && reqs == 0 && c.Plan != "local" && s.Profile != "idle" && !(s.Seg.Mode == "fixed" && s.Seg.Size < 17) && r.Intn(4) != 0 {
 			// a first request larger than any read: its echo starts in the read that ends the echo of
 			// the client's hello and does not end there
 			c.Kind, c.Store = "edit-config", "candidate"
@@ -554,7 +582,17 @@ func GenSession(r *rand.Rand, idx int) Session {
 				c.Fill = fmt.Sprintf(`message-id="%d"`, n) + c.Fill
 			}
 		}
-		if !big && c.Plan != "local" && (idx*7+k)%5 == 1 {
+		hashOK := (s.Seg.Mode == "whole" || (s.Seg.Mode == "fixed" && s.Seg.Size >= 4096)) && (s.TTY == "" || s.TTY == "none") &&
+			!s.NoEchoMark && c.Plan != "straddle"
+		if !big && c.Plan != "local" && hashOK && (idx+k)%3 == 0 {
+			// a data line that reads exactly "##" (a banner): legal in a chunk, and delivered to the caller
+			// intact when the reply reaches the client in one read (the generator only does this where the
+			// transport model hands the whole reply over in one read; with a read boundary behind the
+			// inner line the known C02 frame-boundary finding applies instead)
+			c.Collide = "hash-line"
+			c.Body = "data"
+			c.Fill = c.Fill[:len(c.Fill)/2] + "<banner>\n##\n## authorised users only\n##\n</banner>" + c.Fill[len(c.Fill)/2:]
+		} else if !big && c.Plan != "local" && (idx*7+k)%5 == 1 {
 			// a fixed share of the replies, whatever the PRNG says
 			col := collisions[r.Intn(len(collisions))]
 			c.Collide = col.kind
